@@ -25,7 +25,7 @@ INV = [
     "BatchSizeBounded",
     "BatchSamplesSuffice",
 ]
-BOUNDS = {"quick": dict(MaxLen=2, MaxN=9, MaxMax=4), "thorough": dict(MaxLen=3, MaxN=12, MaxMax=6)}
+BOUNDS = {"quick": dict(MaxLen=3, MaxN=9, MaxMax=4), "thorough": dict(MaxLen=3, MaxN=12, MaxMax=6)}
 
 
 def _circ(j):
